@@ -764,7 +764,7 @@ class Executor:
         from . import models
         if name in ("int", "str", "bytes", "bool", "float", "list", "dict", "tuple", "set", "frozenset", "type", "object"):
             return VClass(name)         # builtin types: classes (isinstance / type() ==) that are also callable
-        if name in models.BUILTINS:
+        if name in models.BUILTINS or name in self.reg.externals:
             return VFunc("builtin", name)
         if name in BUILTIN_EXC or name in ("object", "int", "str", "bytes", "bool", "float", "list", "dict", "tuple", "set",
                                            "bytearray", "type", "frozenset"):
@@ -890,6 +890,17 @@ class Executor:
                 self.raise_if(state, z3.BoolVal(True), "AttributeError")
             raise Unsupported("attribute %s on object %r" % (attr, o.cls))
         if isinstance(a, VSym):
+            sh = self.reg.shapes.get(a.shape)
+            if sh is not None and attr not in sh.fields:
+                ext = sh.methods.get(attr)
+                if ext is not None:
+                    return VFunc("virtual", attr, self_val=a, spec=ext)
+                if sh.cls:
+                    mod, cn = sh.cls.split(":")
+                    ci = loader.get_class(mod, cn)
+                    c, m = ci.find_method(attr) if ci is not None else (None, None)
+                    if m is not None:
+                        return VFunc("repo", attr, finfo=loader.FuncInfo(c.module, c.name + "." + attr, m, c), self_val=a)
             return self.reg.sym_load(self, state, a, attr)
         if isinstance(a, VModule):
             if loader.is_repo_module(a.name):
@@ -939,6 +950,14 @@ class Executor:
         return o
 
     def ex_JoinedStr(self, state, e):
+        if len(e.values) == 1 and isinstance(e.values[0], ast.FormattedValue) and e.values[0].format_spec is not None:
+            fs = e.values[0].format_spec
+            if len(fs.values) == 1 and isinstance(fs.values[0], ast.Constant) and fs.values[0].value == "06d":
+                v = self.ev(state, e.values[0].value)
+                if isinstance(v, VInt):
+                    from . import natives
+                    self.raise_if(state, v.t < 0, "Unsupported-negative-format")
+                    return VStr(natives.fmt06d(v.t))
         for part in e.values:
             if isinstance(part, ast.FormattedValue):
                 self.ev(state, part.value)
